@@ -6,6 +6,7 @@
 package vbolt
 
 import (
+	"errors"
 	"os"
 
 	bbolt "go.etcd.io/bbolt"
@@ -42,9 +43,30 @@ func Open(path string, mode os.FileMode, options *Options) (*DB, error) {
 	return &DB{DB: db}, nil
 }
 
+// Fault injection (sequential harnesses): the next FailUpdates write transactions fail - either before the
+// transaction function runs ("the device refuses") or, with FailAtCommit, after it ran ("the commit fails":
+// bbolt rolls the transaction back).  A failed transaction leaves the file as it was.
+var (
+	FailUpdates  int
+	FailAtCommit bool
+	ErrInjected  = errors.New("injected storage failure")
+)
+
 func (db *DB) Update(fn func(*Tx) error) error {
 	if sched.Active() {
 		sched.Point(sched.OpYield, nil, "bolt.Update")
+	}
+	if FailUpdates > 0 {
+		FailUpdates--
+		if !FailAtCommit {
+			return ErrInjected
+		}
+		return db.DB.Update(func(tx *Tx) error {
+			if err := fn(tx); err != nil {
+				return err
+			}
+			return ErrInjected
+		})
 	}
 	return db.DB.Update(fn)
 }
